@@ -113,6 +113,20 @@ Checks that were strengthened because a seeded change (or the triage of one) sho
   `hx conc`), two C19 profiles and the hostile mutator use it. **C16-7** is not counted: its demonstration holds back request
   bytes the parser asked to be resumed while it offers two response chunks in a row, which docs/QUICK_START 2.2.4 rules out
   (`seeded/C16-7/meta.json`).
+* **Round 8** (19 more, again two common conditions combined; 8 not caught at first): **C15-8** (urlencoded pieces carried to the
+  next call kept as aliases of the caller's buffer) - only visible to an application that reuses or frees its receive buffer:
+  half of all scripts and every `en_c15` piece are now offered from a heap copy that is scribbled over and freed when the call
+  returns (section 2.3), which also exposed the genuine defect `d02e6c2`; **C07-8** (`htp_connp_req_close` releases the response
+  decompressors) - a quarter of C07's chunked response cases half-close the request stream in mid-body; building that slice
+  showed that the runner stopped executing a script at its first `REQ_CLOSE` (loop condition), so nothing after a half-close had
+  ever been driven - repaired; **C02-8** (body parameters added after the REQUEST_COMPLETE hook) - each side's reported fields
+  are hashed when that side's COMPLETE callback runs and compared with the transaction as dumped; **C04-8** (a parked response
+  trailer flushed into the next transaction when a call ends right behind it) - C04 compares every header and trailer field of
+  every transaction with the ground truth (responses with folded lines excepted: the response parser's folding heuristic is not
+  modelled); **C10-8** (repeated `Set-Cookie` response lines exempted from the repetition cap) - the cap is exercised with ten field names;
+  **C11-8** (host mismatch skipped when both sides carry the same explicit port) - same-port pairs in the trigger matrix;
+  **C13-8** (CONNECT to a bracketed IPv6 host keeps the ':' in the port text) - `en_c13` drives CONNECT targets end to end; **C16-8**
+  (a CONNECT that announces a body, even `Content-Length: 0`, is never suspended or tunnelled) - CONNECT requests with extra headers, IPv6/IPv4 targets.
 * **C08-1/2, C19-1/2** were the acceptance tests of the two checks built last; C19-1 (a process-wide decompression buffer) is
   invisible to ThreadSanitizer because zlib does the writes, and is caught by the solo-vs-shared dump comparison under baton
   interleavings; C19-2 (self-organising best-fit map) is caught by the deep configuration hash and by TSan.
